@@ -201,6 +201,59 @@ def check_sql(q, impl, model):
     return bad
 
 
+def check_disk(q, impl, model):
+    """Storage sort order: keyed table `k` on the disk engine (3..5 row-sets with interleaving key
+    ranges) and its unkeyed twin `u`, fresh / after a compaction pass / after reopen.  `ord`
+    (ORDER BY k) and `scan` (plain scan, whose order the planner trusts) must be sorted under the
+    model's cmp; GROUP BY k and the join on k must give the same bags on k as on u, which must be
+    the model's == classes."""
+    bad = []
+    t = q.split(" ")
+    ty, vals = t[1], t[2:]
+    n = len(vals)
+    if impl.startswith(("create-failed", "load-failed")):
+        return [("harness:" + impl.split(":")[0], impl[:200])]
+    ranks = [int(x) for x in parse_sections(model)["rank"].split(",")]
+    cls = {}
+    for i in range(n):
+        cls.setdefault(ranks[i], []).append(i)
+    exp_groups = sorted((min(c), max(c), len(c)) for c in cls.values())
+    exp_join = sorted((i, j) for i in range(n) for j in range(n) if ranks[i] == ranks[j])
+    I = parse_sections(impl)
+    for phase in ("fresh", "compacted", "reopened"):
+        body = I.get(phase, "")
+        if "=" not in body:
+            bad.append(("model:disk-%s-failed" % phase, body[:80]))
+            continue
+        P = dict(part.split("=", 1) for part in body.split("|"))
+        for key in ("ord", "scan"):
+            v = P.get(key, "")
+            if v in ("err", "panic"):
+                bad.append(("model:disk-%s-%s-failed" % (key, phase), v))
+                continue
+            seq = [int(x) for x in v.split(",")] if v else []
+            if sorted(seq) != list(range(n)):
+                bad.append(("oracle:disk-%s-not-permutation:%s" % (key, phase), v[:120]))
+                continue
+            rk = [ranks[i] for i in seq]
+            if any(rk[k] > rk[k + 1] for k in range(n - 1)):
+                bad.append(("model:disk-%s-unsorted:%s" % (key, phase),
+                            "%s of the keyed table returns ids %s whose keys have cmp-ranks %s (not sorted)" % (
+                                "ORDER BY k" if key == "ord" else "the plain scan", seq, rk)))
+        for a, b, exp, what in (("gk", "gu", exp_groups, "group"), ("jk", "ju", exp_join, "join")):
+            ga, gb = P.get(a, ""), P.get(b, "")
+            if ga in ("err", "panic") or gb in ("err", "panic"):
+                bad.append(("model:disk-%s-failed:%s" % (what, phase), "%s / %s" % (ga[:20], gb[:20])))
+                continue
+            pa = sorted(tuple(int(x) for x in g.split("-")) for g in ga.split(",")) if ga else []
+            pb = sorted(tuple(int(x) for x in g.split("-")) for g in gb.split(",")) if gb else []
+            if pa != pb:
+                bad.append(("oracle:disk-%s-keyed-vs-twin:%s" % (what, phase), "keyed %s twin %s" % (pa[:8], pb[:8])))
+            if pa != exp:
+                bad.append(("model:disk-%s:%s" % (what, phase), "keyed table %s, model classes %s" % (pa[:8], exp[:8])))
+    return bad
+
+
 def strip_rt(ans):
     return " ".join(x for x in ans.split(" ") if not x.startswith("rt:") and not x.startswith("why:"))
 
@@ -280,6 +333,21 @@ def compare(ck, reqs, impl, model, stats, viol):
                 viol("corr:parse:" + ty, "model and implementation disagree on %s" % q, {"request": q, "impl": i, "model": m})
             elif i.startswith("ok"):
                 stats["nontrivial"].add(q)
+        elif kind == "disk":
+            ty = q.split(" ")[1]
+            stats["dist"]["disk:" + ty] += 1
+            stats["dist"]["disk-rowsets:" + (parse_sections(i).get("groups") or "?")] += 1
+            bad = check_disk(q, i, m)
+            stats["mvi"]["compared"] += 1
+            stats["ivo"]["compared"] += 1
+            if not bad:
+                stats["nontrivial"].add(q)
+            for k, detail in bad:
+                if k.startswith("oracle:"):
+                    stats["ivo"]["disagree"] += 1
+                else:
+                    stats["mvi"]["disagree"] += 1
+                viol("sql:%s:%s" % (k, ty), "keyed %s table on the disk engine: %s (%s)" % (ty, k, detail), {"request": q, "impl": i[:3000], "model": m})
         elif kind == "sql":
             ty = q.split(" ")[1]
             stats["dist"]["sql:" + ty] += 1
@@ -312,6 +380,7 @@ def run(ck):
     def viol(sig, what, replay, found=True):
         ck.report(sig, what, replay=replay, found_input=found)
 
+    vlib.ENV["VERIF_C19_WORK"] = ck.work
     # 1. translator
     rc, out = vlib.sh(["python3", os.path.join(vlib.VERIF, "translator/gen_valueorder.py"), vlib.REPO])
     ck.log(out.strip().split("\n")[-1])
